@@ -29,7 +29,8 @@ every subscription point `k`, both modes, every admissible element order for the
   predicate that writes to a value it keeps changes the map without any event.  `mirror_eq_hashmap_partial`
   therefore assumes `AllGood` (no such predicate); `f4_retain_mutation_diverges` is the kernel-checked
   counterexample.
-* **F13** (new) the mirror task of the four broadcast based collections starts with
+* **F13** (repaired in /repo by be944ac; the current tree is variant `.fixed`, the description is of
+  the code before the repair = variant `.pinned`) the mirror task of the four broadcast based collections started with
   `done: self.is_done()` and leaves its loop as soon as `inner.done` holds after an event.  For an
   *incremental* subscription taken *after* `done()` this is the case after the very first element: the
   mirror keeps one element, `complete` stays false, no error is reported.  The theorems for the task as
